@@ -262,6 +262,60 @@ theorem compile_enumerate_perm (S : List (CRow W) → List (CRow W)) (hS : ∀ l
   intro s hs
   exact syllable_roundtrip (hinv s hs)
 
+/-! ### packs: tables over a fixed syllabary (dict_compiler.cc:171-217) -/
+
+/-- **pack_syllabary_fixed** — a pack's collector starts from the primary table's syllabary and never learns a syllable: whatever
+the pack's rows are, its table is built over exactly that syllabary (so syllable ids mean the same in every table of the
+dictionary). -/
+theorem pack_syllabary_fixed (syl : List Bytes) (h : Ascending bytesLt syl) (rows : List RawRow) :
+    (collectPack syl rows).syllabary = syl :=
+  foldl_collectRow_fixed syl h _ _ rfl (packRows_ok syl rows)
+
+/-- **pack_is_treatment** — the pack's entries are the same treatment (`treatRaw`: rows without a code aside, a repeated
+one-syllable pair once) applied to the rows all of whose syllables exist in the fixed syllabary; rows with a foreign syllable
+leave no trace, not even in the word list that detects repetitions. -/
+theorem pack_is_treatment (syl : List Bytes) (rows : List RawRow) :
+    (collectPack syl rows).entries = (treatRaw [] (packRows syl rows)).map toSRow := by
+  simp [collectPack, foldl_collectRow_entries, Collector.empty]
+
+/-- the rows of a pack kept for it are exactly those with every syllable in the syllabary (or without a code) -/
+theorem pack_rows_spec (syl : List Bytes) (rows : List RawRow) (r : RawRow) :
+    r ∈ packRows syl rows ↔ r ∈ rows ∧ (r.codeStr.isEmpty = true ∨ ∀ s ∈ tokens r.codeStr, s ∈ syl) := by
+  simp only [packRows, List.mem_filter, Bool.or_eq_true, List.all_eq_true, List.contains_iff_mem]
+
+/-- **pack_enumerate_perm** — end to end for a pack: the enumeration of the pack's table, codes spelled out through the fixed
+syllabary, is a permutation of the pack's kept rows (text, syllables, weight). -/
+theorem pack_enumerate_perm (S : List (CRow W) → List (CRow W)) (hS : ∀ l, (S l).Perm l) (wt : Bytes → W)
+    (syl : List Bytes) (h : Ascending bytesLt syl) (rows : List RawRow) :
+    ((enumerate (compileTable S wt (collectPack syl rows))).map (decodeRow syl)).Perm
+      (((collectPack syl rows).entries.filter (fun r => !r.code.isEmpty)).map (sourceTriple wt)) := by
+  have hinv := collInv_collectPack syl h rows
+  have hsyl := pack_syllabary_fixed syl h rows
+  have hvalid : ValidRows (collectPack syl rows).syllabary.length (compileRows wt (collectPack syl rows)) := by
+    intro r hr
+    simp only [compileRows, List.mem_map, List.mem_filter] at hr
+    obtain ⟨e, ⟨he, hne⟩, rfl⟩ := hr
+    have hi := hinv.2 e he
+    cases hc : e.code with
+    | nil => simp [hc] at hne
+    | cons a t =>
+      refine ⟨by simp, ?_⟩
+      simp only [List.map_cons, List.getD_cons_zero]
+      exact syllableId_lt (hi a (by simp [hc]))
+  have hp := enumerate_build_perm S hS _ _ hvalid
+  refine List.Perm.trans (List.Perm.map _ hp) (List.Perm.of_eq ?_)
+  simp only [compileRows, List.map_map]
+  apply List.map_congr_left
+  intro e he
+  have hi := hinv.2 e (List.mem_filter.mp he).1
+  rw [hsyl] at hi
+  simp only [Function.comp, decodeRow, sourceTriple, List.map_map, Prod.mk.injEq, true_and, and_true]
+  conv => rhs; rw [← List.map_id e.code]
+  apply List.map_congr_left
+  intro s hs
+  rw [hsyl]
+  exact syllable_roundtrip (hi s hs)
+
 /-! ### M-arena -/
 
 /-- **allocate_aligned** — the block starts at a multiple of the alignment, at or after the old end, with
@@ -409,6 +463,14 @@ example :
       (fun e => (e.text, e.code, e.weightStr))) =
       [([120], [[97]], [49]), ([120, 121], [[97], [98]], [50]), ([120, 121], [[97], [98]], [50]),
        ([120], [[97]], [51])] := by
+  decide
+
+/-- a pack over the syllabary {a, b} (97, 98): the row with the foreign syllable `c` is dropped, and — dropped before the word
+list sees it — does not shadow anything; the repeated pair `x a` is kept once; the syllabary stays {a, b} -/
+example :
+    let c := collectPack [[97], [98]] [⟨[120], [97], [49]⟩, ⟨[121], [97, 32, 99], [50]⟩, ⟨[120], [97], [57]⟩, ⟨[122], [98, 32, 97], []⟩]
+    c.syllabary = [[97], [98]] ∧
+    c.entries.map (fun e => (e.text, e.code)) = [([120], [[97]]), ([122], [[98], [97]])] := by
   decide
 
 /-- the bound on a concrete index (one word, one phrase of five syllables): worst-case cost 202 ≤ bound 228, actual end 184, and
